@@ -27,7 +27,7 @@ func refMSM7(t int) bool { return t >= 1077 && t <= 1137 && t%10 == 7 }
 
 // C20 enumerates all 4096 message types and the two negative sentinels.
 func C20(r *ev.Run) {
-	r.Rule = "complete enumeration of message types -2..4095; each type is one case; each type is also sent, as CRC-valid frames of 9 payload lengths (2..300, including the sizes of 1005/1006 and padded ones) followed by a second frame, through HandleMessages, whose classification must agree with GetMessage, and is classified again after four short histories on one handler (an intact frame of the other kind and damaged or truncated frames of this type), which must give what a fresh handler gives; non-trivial = every case (each exercises 10 classification observations); distinct = distinct type values"
+	r.Rule = "complete enumeration of message types -2..4095; each type is one case; each type is also sent, as CRC-valid frames of 9 payload lengths (2..300, including the sizes of 1005/1006 and padded ones) followed by a second frame, through HandleMessages, whose classification must agree with GetMessage; MSM types are offered to the decoders again with timestamp 0 and with the last millisecond of their week; each type is classified again after four short histories on one handler (an intact frame of the other kind and damaged or truncated frames of this type), which must give what a fresh handler gives; non-trivial = every case (each exercises 10 classification observations); distinct = distinct type values"
 	r.Assumptions = []string{"constellation names are compared by case-insensitive stem (gps, glonass, galileo, sbas, qzss, beidou, navic), not by exact spelling"}
 	start := time.Date(2023, 5, 10, 12, 0, 0, 0, time.UTC)
 	names := map[string]int{} // constellation name -> decade
@@ -189,6 +189,32 @@ func C20(r *ev.Run) {
 				fail(t, "1006-decoder-acceptance", fmt.Sprintf("1006 decoder accepted=%v for type %d", e == nil, t), t == 1006, e == nil)
 			}
 			r.Count(0, 0, 4, 0)
+		}
+		// an MSM type is accepted by its decoder family over the whole range of its
+		// timestamp: 0 and the last millisecond of the constellation's week (GLONASS:
+		// day 6, 23:59:59.999)
+		if e4 || e7 {
+			last := uint(604799999)
+			if t/10 == 108 {
+				last = 6<<27 | 86399999
+			}
+			for _, ts := range []uint{0, last} {
+				fr := ref.HeaderOnlyMSM(t, ts)
+				_, err4 := msm4.GetMessage(fr, slog.LevelInfo)
+				_, err7 := msm7.GetMessage(fr, slog.LevelInfo)
+				r.Count(0, 0, 2, 0)
+				if (err4 == nil) != e4 || (err7 == nil) != e7 {
+					fail(t, "decoder-acceptance-depends-on-the-timestamp", fmt.Sprintf("type %d timestamp %d: MSM4 decoder error %v, MSM7 decoder error %v", t, ts, err4, err7), "accepted by exactly its own family", fmt.Sprint(err4, err7))
+				}
+				if m, _ := handler.New(start, slog.LevelInfo).GetMessage(fr); m != nil {
+					handler.Analyse(m)
+					_, is4 := m.Readable.(*msm4.Message)
+					_, is7 := m.Readable.(*msm7.Message)
+					if is4 != e4 || is7 != e7 {
+						fail(t, "decoder-family-depends-on-the-timestamp", fmt.Sprintf("type %d timestamp %d: not decoded by its own family (error %q)", t, ts, m.ErrorMessage), nil, m.ErrorMessage)
+					}
+				}
+			}
 		}
 		// classification must not depend on what the handler saw before: an intact
 		// frame of the other kind, then a damaged frame of this type (rejected after
